@@ -4,6 +4,7 @@
 //@ fn: DebugSession::send_response_raw, DebugSession::send_event_raw, DebugSession::run
 //@ shim: src/dap/yadap/protocol.rs :: struct DapResponse :: seq: i64, request_seq: i64, success: bool, command: String, message: Option<String>, body: Option<Value>
 //@ shim: src/dap/yadap/protocol.rs :: struct DapRequest :: seq: i64, command: String
+//@ shim: src/dap/yadap/session/mod.rs :: struct DebugSession :: answered_request: Option<i64>
 //@ assume: sequential model of the session thread only: `server_seq.fetch_add(1)` (next_seq) is an ext fn returning the counter and advancing it; taking the transport lock and write_message append the message to a ghost `wire` sequence on the session shim; serde_json::to_value keeps the fields (ghost view of the JSON value); the two output-forwarder threads that share server_seq and the lock are NOT modelled (concurrency: sequence numbers across threads are outside this unit)
 //@ assume: signature substitution: `run(mut self, ..)` -> `run(&mut self, ..)` (Verus: `mut self` unsupported)
 //@ assume: dispatch (the 40 handlers) is an assumed contract: a handler answers its own request at most once and nobody else's, and has answered when it returns Ok (it may answer and then fail); drain_events sends no response; a failed transport write sets a ghost `io_failed` flag and response accounting is claimed only while it is unset
@@ -46,7 +47,10 @@ pub struct DebugSession {
     pub io_failed: Ghost<bool>,
     /// ghost: `seq` of every request read so far (messages of type "request" only)
     pub reqs: Ghost<Seq<int>>,
+    /// real field: seq of the request that received a response last
+    pub answered_request: Option<i64>,
 }
+pub enum InternalEvent { Output { category: &'static str, output: String } }
 
 pub open spec fn count(s: Seq<int>, x: int) -> nat
     decreases s.len(),
@@ -102,13 +106,13 @@ impl DebugSession {
     #[verifier::external_body]
     fn next_seq(&mut self) -> (r: i64)
         ensures r as int == old(self).seq_counter@, final(self).seq_counter@ == old(self).seq_counter@ + 1,
-            final(self).wire@ == old(self).wire@, final(self).io_failed@ == old(self).io_failed@,
+            final(self).wire@ == old(self).wire@, final(self).io_failed@ == old(self).io_failed@, final(self).answered_request == old(self).answered_request, final(self).reqs@ == old(self).reqs@,
     { unimplemented!() }
 
     /// `let mut lock = self.io.lock().unwrap(); lock.write_message(&value)`
     #[verifier::external_body]
     fn outline_write(&mut self, value: &JsonValue) -> (r: Result<(), AnyErr>)
-        ensures final(self).seq_counter@ == old(self).seq_counter@,
+        ensures final(self).seq_counter@ == old(self).seq_counter@, final(self).answered_request == old(self).answered_request, final(self).reqs@ == old(self).reqs@,
             r is Ok ==> final(self).wire@ == old(self).wire@.push(value.view@) && final(self).io_failed@ == old(self).io_failed@,
             r is Err ==> final(self).wire@ == old(self).wire@ && final(self).io_failed@,
     { unimplemented!() }
@@ -124,7 +128,7 @@ impl DebugSession {
     /// `{ let mut lock = self.io.lock().unwrap(); lock.read_message()? }` (the `?` stays outside)
     #[verifier::external_body]
     fn outline_read(&mut self) -> (r: Result<RawMsg, AnyErr>)
-        ensures final(self).wire@ == old(self).wire@, final(self).io_failed@ == old(self).io_failed@, final(self).reqs@ == old(self).reqs@,
+        ensures final(self).wire@ == old(self).wire@, final(self).io_failed@ == old(self).io_failed@, final(self).reqs@ == old(self).reqs@, final(self).answered_request == old(self).answered_request,
     { unimplemented!() }
 
     #[verifier::external_body]
@@ -134,14 +138,22 @@ impl DebugSession {
 
     /// ASSUMED contract of the 40 handlers (what they can be relied on for, checked for handle_continue by C12.handlers):
     /// a handler answers its own request at most once and no other request; when it returns Ok it has answered.
-    /// It may answer and THEN fail (handle_continue responds before it blocks).
+    /// It may answer and THEN fail (handle_continue responds before it blocks).  Every response goes through
+    /// send_response_raw, which records the answered request (E_rsp_mark), so the field tells whether it answered.
     #[verifier::external_body]
     fn dispatch(&mut self, req: &DapRequest, oracles: &Oracles) -> (r: Result<bool, AnyErr>)
         ensures final(self).reqs@ == old(self).reqs@,
             !final(self).io_failed@ ==> !old(self).io_failed@
                 && (forall|rs: int| rs != req.seq ==> #[trigger] answers(final(self).wire@, rs) == answers(old(self).wire@, rs))
                 && answers(old(self).wire@, req.seq as int) <= answers(final(self).wire@, req.seq as int) <= answers(old(self).wire@, req.seq as int) + 1
-                && (r is Ok ==> answers(final(self).wire@, req.seq as int) == answers(old(self).wire@, req.seq as int) + 1),
+                && (r is Ok ==> answers(final(self).wire@, req.seq as int) == answers(old(self).wire@, req.seq as int) + 1)
+                && (old(self).answered_request is None ==>
+                        (final(self).answered_request == Some(req.seq) <==> answers(final(self).wire@, req.seq as int) == answers(old(self).wire@, req.seq as int) + 1)),
+    { unimplemented!() }
+
+    #[verifier::external_body]
+    fn enqueue_event(&mut self, ev: InternalEvent)
+        ensures final(self).wire@ == old(self).wire@, final(self).io_failed@ == old(self).io_failed@, final(self).reqs@ == old(self).reqs@, final(self).answered_request == old(self).answered_request,
     { unimplemented!() }
 
     /// send_err -> send_response_raw(req, false, ..): one response for `req` (proved for send_response_raw above: E_rsp)
@@ -160,6 +172,7 @@ impl DebugSession {
 //@   outline O_from: `serde_json::from_value(msg)?` => `outline_from_value(msg)?`
 //@   outline O_type: `req.r#type != "request"` => `outline_not_request(&req)`
 //@   outline O_fmt: `format!("{e:#}")` => `outline_fmt_err(&e)`
+//@   outline O_fmt2: `format!("{}: {e:#}\n", req.command)` => `outline_fmt_err(&e)`
 //@   proof before `let cont = match self.dispatch(&req, &oracles)`: let ghost r0 = self.reqs@; let ghost w0 = self.wire@; self.reqs = Ghost(r0.push(req.seq as int)); assert forall|rs: int| #[trigger] count(self.reqs@, rs) == count(r0, rs) + (if req.seq as int == rs { 1nat } else { 0nat }) by { lemma_count_push(r0, req.seq as int, rs); } assert(!self.io_failed@ ==> forall|rs: int| #[trigger] answers(w0, rs) == count(r0, rs));
 //@   loop 0 invariant I_run: answered_once(self)
 //@ end
@@ -170,6 +183,8 @@ impl DebugSession {
 //@   ensures E_rsp_seq: final(self).seq_counter@ == old(self).seq_counter@ + 1
 //@   ensures E_rsp_err: r is Err ==> final(self).wire@ == old(self).wire@
 //@   ensures E_rsp_flag: !final(self).io_failed@ ==> !old(self).io_failed@
+//@   ensures E_rsp_mark: r is Ok ==> final(self).answered_request == Some(req.seq)
+//@   ensures E_rsp_nomark: r is Err ==> final(self).answered_request == old(self).answered_request
 //@   outline O_clone: `req.command.clone()` => `outline_clone_string(&req.command)`
 //@   outline O_val: `serde_json::to_value(rsp)?` => `outline_to_value(rsp)?`
 //@   outline O_write: `let mut lock = self.io.lock().unwrap(); lock.write_message(&value)` => `self.outline_write(&value)`
